@@ -218,6 +218,26 @@ func buildCorpus(e *Env, seed uint64, nMut int, long bool) (*common.Corpus, corp
 			add(fill("1 union select 1,2,3 from t -- ", n), common.FLong)
 			add(fill("x\" onmouseover=alert(1) y=\"", n), common.FLong)
 		}
+		// unusual input classes: empty, NUL-only, whitespace-only, invalid UTF-8,
+		// exact powers of two (and one off), deep nesting, very many tokens
+		for _, u := range []string{"", "\x00", strings.Repeat("\x00", 16), strings.Repeat("\x00", 1000), " ", strings.Repeat(" \t\n", 100),
+			"\xff\xfe", "\xc0\x80", "\xed\xa0\x80", "sel\xffect 1", "<scr\xc0ipt>", "\xf0\x9f\x92\xa9 or 1=1", "1\xa0or\xa01=1"} {
+			add(u, common.FLiteral)
+		}
+		for _, n := range []int{255, 256, 257, 511, 512, 513, 1023, 1024, 1025, 2048, 4096, 8192, 16384, 32768, 65535, 65536, 65537} {
+			add(fill("", n), common.FLong)
+		}
+		add(strings.Repeat("(", 3000)+"1"+strings.Repeat(")", 3000), common.FLong)
+		add(strings.Repeat("<a", 3000), common.FLong)
+		add(strings.Repeat("<div>", 1500)+strings.Repeat("</div>", 1500), common.FLong)
+		add(strings.Repeat("1,", 30000), common.FLong)
+		// huge single tokens: thresholds like 64 KiB or 1 MiB sit on token or input size
+		for _, n := range []int{70000, 1100000} {
+			add(strings.Repeat("A", n), common.FHuge|common.FLong)
+			add("<a href=\""+strings.Repeat("B", n)+"\">", common.FHuge|common.FLong)
+			add("1 or '"+strings.Repeat("C", n)+"'='", common.FHuge|common.FLong)
+		}
+		add(fill("", 300000), common.FHuge|common.FLong)
 		// long TOKENS (one attribute value, string, comment, word of 300 B .. 5 kB):
 		// scratch buffers and fast paths are usually sized per token, not per input
 		word := func(n int) string { return strings.Repeat("abcdefghij", n/10+1)[:n] }
@@ -258,10 +278,45 @@ func buildCorpus(e *Env, seed uint64, nMut int, long bool) (*common.Corpus, corp
 			}
 			q := []string{" ' ", " \" ", "' ", "\" ", " ` ", "'>", "\">"}[r.Intn(7)]
 			sp := a + q + b
+			if k%5 == 0 && len(sp) < 90 {
+				// three parts, both quote kinds: positive in the single- AND the double-quoted context
+				c3 := pool[r.Intn(len(pool))]
+				if len(c3) <= 60 {
+					add(a+" ' "+b+" \" "+c3, common.FMutated|common.FSplice)
+				}
+			}
 			if k%2 == 0 {
-				add(sp, common.FMutated)
+				add(sp, common.FMutated|common.FSplice)
 			} else {
 				add(fill(sp+" ", []int{1100, 2300, 4700}[k%3]), common.FPadded)
+			}
+		}
+		// injection tails: what follows the closing quote in a classic injection; joined
+		// to a corpus input they are positive as-is (head) AND in the quoted context (tail)
+		tails := []string{"or 1=1 --", "or '1'='1", "union select 1,2 --", "and 1=1", "; drop table t --", "or 1=1#", "|| 1=1 --", "or sleep(1) --",
+			" onmouseover=alert(1) x=", "><script>alert(1)</script>", " style=x:expression(1) x=", " autofocus onfocus=alert(1) x="}
+		for k := 0; k < 150 && len(pool) > 0; k++ {
+			a := pool[r.Intn(len(pool))]
+			if len(a) > 80 {
+				continue
+			}
+			q := []string{" ' ", " \" ", "' ", "\" ", "'", "\""}[k%6]
+			add(a+q+tails[k%len(tails)], common.FMutated|common.FSplice)
+		}
+		// benign head, then a part behind a single quote and another behind a double
+		// quote: not SQLi as-is, but (often) in BOTH quoted contexts with different fingerprints
+		for k := 0; k < 80 && len(litBases) > 1; k++ {
+			p1, p2 := litBases[r.Intn(len(litBases))], litBases[r.Intn(len(litBases))]
+			if len(p1) > 40 || len(p2) > 40 {
+				continue
+			}
+			head := []string{"x", "foo", "a1", "", "zz top"}[k%5]
+			if k%2 == 0 {
+				add(head+"' "+tails[k%8]+" \" "+tails[(k/2+3)%8], common.FMutated|common.FSplice)
+				add(head+"' "+p1+" \" "+p2, common.FMutated|common.FSplice)
+			} else {
+				add(head+"\" "+tails[k%8]+" ' "+tails[(k/2+5)%8], common.FMutated|common.FSplice)
+				add(head+"\" "+p1+" ' "+p2, common.FMutated|common.FSplice)
 			}
 		}
 		longPats := []string{"1 union select ", "<a href=x ", "a' or 1=1 -- ", "/*! 1 */ ", "&#x6A;av"}
